@@ -9,6 +9,7 @@ CONSTANTS
   MaxRuns = 3
   MaxKills = 100
   MaxInterrupts = 100
+  RepairPartial = TRUE
   Planned = TRUE
 INIT Init
 NEXT Next
